@@ -81,7 +81,7 @@ class C08(Prop):
                    'arbitrary interleavings of foreign threads are C03',
                    'real signals are not delivered; KeyboardInterrupt/SystemExit are raised from handlers',
                    'only one generator handler exists per cycle (the one carrying the stop), so no task outlives the stop')
-    budget = {'quick': (2500, 4), 'thorough': (15000, 16)}
+    budget = {'quick': (2500, 4), 'thorough': (100000, 16)}
     shrink_lists = {'cycles': 1, 'kids': 0, 'idle_stops': 0}
 
     def setup(self):
